@@ -239,6 +239,7 @@ impl KmerMinHash {
         if let Some(ref mut abunds) = self.abunds {
             abunds.clear();
         }
+        self.reset_md5sum();
     }
 
     pub fn is_empty(&self) -> bool {
@@ -1167,6 +1168,7 @@ impl KmerMinHashBTree {
             abunds.clear();
         }
         self.current_max = 0;
+        self.reset_md5sum();
     }
 
     pub fn is_empty(&self) -> bool {
